@@ -233,6 +233,19 @@ class StoreWatch(Monitor):
                     # reach the store before its flows are merged into the
                     # pooled proxy and it is discarded
                     preds.append('flow_command_on_pooled_task_left_shadow_state')
+                cyc_, name_ = itask.identity.split('/')
+                if not preds and any(
+                        k[0] == cyc_ and k[1] == name_
+                        for k in self.h.world.dup_launches) and any(
+                        d[3] == 'force_trigger_tasks' and d[4].get('flow')
+                        and d[4]['flow'] != ['none']
+                        and itask.identity in d[4].get('tasks', [])
+                        and itask.identity in d[6]
+                        for d in getattr(self.res, 'commands_done', [])):
+                    # the second proxy built by the flow trigger was not only
+                    # reported but run: two jobs with one submit number, the
+                    # store following the one that is not in the pool
+                    preds.append('flow_trigger_on_pooled_task_ran_shadow_proxy')
                 self.res.violate('store_differs_from_pool', {
                     'task': itask.identity, 'store_vs_pool': diffs,
                     'predicates': preds})
